@@ -1,10 +1,13 @@
 package props
 
 import (
+	"strings"
 	"testing"
+	"unicode/utf8"
 
 	"verif/harness/evid"
 	"verif/harness/refmqtt"
+	"verif/harness/reftopic"
 )
 
 // Native fuzz targets (thorough tier, second stage): coverage-guided byte strings fed to the same check functions the
@@ -116,5 +119,70 @@ func FuzzC30(f *testing.F) {
 		}
 		evid.FuzzStep(t, fuzzC30, c30Case{S: s, ForPublish: false}, c30Check)
 		evid.FuzzStep(t, fuzzC30, c30Case{S: s, ForPublish: true}, c30Check)
+	})
+}
+
+var fuzzC01 = evid.NewFuzz("C01", "native fuzzing: two valid filters (each as client, shared or inline subscription), an optional removal and a valid topic name; selected set against the reference matcher, both directions")
+
+func FuzzC01(f *testing.F) {
+	f.Add(byte(0), "a/+", "a/#", "a/b")
+	f.Add(byte(1), "+/b/#", "#", "a/b")
+	f.Add(byte(2+3*1+9), "$x/#", "+/+", "$x/a")
+	f.Add(byte(5), "a//b", "a/+/b", "a//b")
+	f.Add(byte(7), "/", "+/+", "/")
+	f.Fuzz(func(t *testing.T, sel byte, f1, f2, topic string) {
+		if !utf8.ValidString(f1) || !utf8.ValidString(f2) || !utf8.ValidString(topic) || strings.ContainsRune(f1+f2+topic, 0) || topic == "" ||
+			!reftopic.ValidTopicName(topic) || !reftopic.ValidPlainFilter(f1) || !reftopic.ValidPlainFilter(f2) ||
+			strings.HasPrefix(f1, "$share/") || strings.HasPrefix(f2, "$share/") || len(f1)+len(f2)+len(topic) > 200 {
+			t.Skip()
+		}
+		mk := func(k byte, client string, id int, filter string) c01Op {
+			switch k % 3 {
+			case 1:
+				return c01Op{Kind: "shared", Client: client, Filter: "$share/g/" + filter}
+			case 2:
+				return c01Op{Kind: "inline", ID: id, Filter: filter}
+			}
+			return c01Op{Kind: "client", Client: client, Filter: filter}
+		}
+		o1, o2 := mk(sel, "c1", 1, f1), mk(sel/3, "c2", 2, f2)
+		c := c01Case{Ops: []c01Op{o1, o2}, Topics: []string{topic}}
+		switch (sel / 9) % 4 {
+		case 1: // the first one leaves again
+			u := o1
+			u.Unsub = true
+			c.Ops = append(c.Ops, u)
+		case 2: // somebody who does not hold it asks for its removal
+			u := o1
+			u.Unsub, u.Client, u.ID = true, "c3", 3
+			c.Ops = append(c.Ops, u)
+		}
+		evid.FuzzStep(t, fuzzC01, c, c01Check)
+	})
+}
+
+var fuzzC02 = evid.NewFuzz("C02", "native fuzzing: three valid topic names retained (the third optionally cleared again) and two valid filters; the retained messages returned for each filter against the reference matcher, both directions, after every operation")
+
+func FuzzC02(f *testing.F) {
+	f.Add(byte(0), "a/b", "a", "a/b/c", "a/#", "+/b")
+	f.Add(byte(1), "$x/a", "a", "/", "#", "+/+")
+	f.Add(byte(2), "a//b", "a/", "a", "a/+/b", "a/#")
+	f.Fuzz(func(t *testing.T, sel byte, t1, t2, t3, f1, f2 string) {
+		all := t1 + t2 + t3 + f1 + f2
+		if !utf8.ValidString(all) || strings.ContainsRune(all, 0) || t1 == "" || t2 == "" || t3 == "" || len(all) > 300 ||
+			!reftopic.ValidTopicName(t1) || !reftopic.ValidTopicName(t2) || !reftopic.ValidTopicName(t3) ||
+			!reftopic.ValidPlainFilter(f1) || !reftopic.ValidPlainFilter(f2) || strings.HasPrefix(f1, "$share/") || strings.HasPrefix(f2, "$share/") {
+			t.Skip()
+		}
+		c := c02Case{Ops: []c02Op{{t1, "p1"}, {t2, "p2"}, {t3, "p3"}}, Filters: []string{f1, f2}, EveryStep: true}
+		switch sel % 4 {
+		case 1:
+			c.Ops = append(c.Ops, c02Op{t3, ""})
+		case 2:
+			c.Ops = append(c.Ops, c02Op{t1, ""}, c02Op{t1, "p4"})
+		case 3:
+			c.Ops = append(c.Ops, c02Op{t2, ""}, c02Op{t3, ""})
+		}
+		evid.FuzzStep(t, fuzzC02, c, c02Check)
 	})
 }
